@@ -109,3 +109,147 @@ def run(scripts, order):
     except Exception:
         pass
     return [out.get(t) for t in range(len(scripts))], solo, errs
+
+
+# ----------------------------------------------------------------------------------------------
+# operation-event granularity: yield points inside the forward AND the backward pass (a user primitive whose forward
+# function and whose VJP both yield), exhaustive enumeration of the interleavings of two small programs that use array
+# primitives with helper state (sort / partition / indexing / dot / concatenate), each result compared with its solo run.
+# This is replay-style evidence (real threads, real autograd); the solver-decided part of C20 is trace-event granular.
+
+
+def _make_yield(sched_box):
+    from autograd.extend import defjvp, defvjp, primitive
+
+    @primitive
+    def yp(x, me):
+        s = sched_box[0]
+        if s is not None:
+            s.point(me)
+        return x
+
+    def yp_vjp(ans, x, me):
+        def vjp(g):
+            s = sched_box[0]
+            if s is not None:
+                s.point(me)
+            return g
+
+        return vjp
+
+    defvjp(yp, yp_vjp)
+    defjvp(yp, lambda g, ans, x, me: g)
+    return yp
+
+
+def op_programs():
+    import numpy as onp
+    import autograd.numpy as np
+    from autograd import grad, make_vjp
+
+    box = [None]
+    yp = _make_yield(box)
+    w = onp.array([1.0, -2.0, 0.5, 3.0])
+
+    def hvp_sort(me, x, v):
+        f = lambda z: np.sum(w * np.sort(yp(z, me)) ** 3)
+        return grad(lambda z: np.sum(grad(f)(z) * v))(yp(x, me))
+
+    def grad_sort(me, x, v):
+        return grad(lambda z: np.sum(w * np.sort(yp(z, me)) ** 2) + np.sum(np.partition(yp(z * 2.0, me), 2) * v))(x)
+
+    def hvp_index(me, x, v):
+        f = lambda z: np.sum(yp(z, me)[[0, 0, 3, 1]] ** 3) + np.dot(z, np.concatenate([z[2:], z[:2]]))
+        return grad(lambda z: np.dot(grad(f)(z), v))(yp(x, me))
+
+    def nested_mixed(me, x, v):
+        from autograd import make_jvp
+
+        f = lambda z: np.sum(np.tanh(yp(z, me)) * np.cumsum(z))
+        return make_jvp(grad(f))(yp(x, me))(v)[1]
+
+    def vjp_reuse(me, x, v):
+        vjp, y = make_vjp(lambda z: yp(np.sort(z) * z[::-1], me))(x)
+        a = vjp(v)
+        b = vjp(v * 2.0)
+        return a + b
+
+    progs = {"hvp_sort": hvp_sort, "grad_sort": grad_sort, "hvp_index": hvp_index, "nested_mixed": nested_mixed, "vjp_reuse": vjp_reuse}
+    return box, progs
+
+
+def op_level_probe(seed=0, max_schedules=1500):
+    """returns list of result dicts (one per program pair)"""
+    import itertools
+    import random
+    import numpy as onp
+
+    warnings.filterwarnings("ignore")
+    box, progs = op_programs()
+    rs = onp.random.RandomState(seed + 3)
+    inputs = {}
+    for t in (0, 1):
+        for n in progs:
+            inputs[(t, n)] = (rs.permutation(4) * 0.7 + rs.rand(4) * 0.1 + t, rs.randn(4))
+
+    class Count:
+        def __init__(self):
+            self.n = 0
+
+        def point(self, me):
+            self.n += 1
+
+    out = []
+    names = sorted(progs)
+    pairs = [(a, b) for a in names for b in names if a <= b]
+    rng = random.Random(seed)
+    for a, b in pairs:
+        solo, counts = [], []
+        for t, n in ((0, a), (1, b)):
+            c = Count()
+            box[0] = c
+            x, v = inputs[(t, n)]
+            solo.append(onp.array(progs[n](t, x, v)))
+            counts.append(c.n)
+        box[0] = None
+        n0, n1 = counts
+        # all interleavings of the yield points of the two threads (a thread's last segment is empty by construction)
+        total = n0 + n1
+        combos = list(itertools.combinations(range(total), n0))
+        if len(combos) > max_schedules:
+            combos = rng.sample(combos, max_schedules)
+        bad = None
+        nrun = 0
+        for pos0 in combos:
+            order = [1] * total
+            for p in pos0:
+                order[p] = 0
+            sched = Sched(order, {0: n0, 1: n1})
+            box[0] = sched
+            res = {}
+            errs = {}
+
+            def worker(t, n):
+                try:
+                    sched.start(t)
+                    x, v = inputs[(t, n)]
+                    res[t] = onp.array(progs[n](t, x, v))
+                except BaseException as e:  # noqa
+                    errs[t] = "%s: %s" % (type(e).__name__, e)
+                    with sched.cv:
+                        sched.dead = True
+                        sched.cv.notify_all()
+
+            ths = [threading.Thread(target=worker, args=(0, a)), threading.Thread(target=worker, args=(1, b))]
+            for th in ths:
+                th.start()
+            for th in ths:
+                th.join(30)
+            nrun += 1
+            box[0] = None
+            ok = not errs and all(t in res and onp.allclose(res[t], solo[t], rtol=1e-12, atol=1e-12) for t in (0, 1))
+            if not ok:
+                bad = {"schedule": order, "errors": errs, "scheduled": {t: (res[t].tolist() if t in res else None) for t in (0, 1)}, "solo": [s_.tolist() for s_ in solo]}
+                break
+        out.append({"programs": [a, b], "yield_points": counts, "schedules_run": nrun, "exhaustive": len(combos) == len(list(range(1))) or nrun == len(combos), "bad": bad})
+    return out
